@@ -19,21 +19,23 @@ from typing import Any
 VERIF = Path(__file__).resolve().parent.parent
 LEAN_DIR = VERIF / "lean"
 DRIVER = LEAN_DIR / ".lake" / "build" / "bin" / "ftdriver"
+VALID_DRIVER = LEAN_DIR / ".lake" / "build" / "bin" / "ftvalid"
 
 
 class Driver:
     """Batch use: `run(lines) -> outputs` (one output line per input line)."""
 
-    def __init__(self) -> None:
-        if not DRIVER.exists():
-            raise RuntimeError(f"model driver not built: {DRIVER}")
+    def __init__(self, exe: Path | None = None) -> None:
+        self.exe = exe or DRIVER
+        if not self.exe.exists():
+            raise RuntimeError(f"model driver not built: {self.exe}")
 
     def run(self, lines: list[str], timeout: float = 600.0) -> list[str]:
         if not lines:
             return []
         data = "\n".join(lines) + "\n"
         p = subprocess.run(
-            [str(DRIVER)], input=data, capture_output=True, text=True, timeout=timeout
+            [str(self.exe)], input=data, capture_output=True, text=True, timeout=timeout
         )
         if p.returncode != 0:
             raise RuntimeError(f"model driver failed rc={p.returncode}: {p.stderr[:500]}")
